@@ -196,6 +196,23 @@ static void do_setbig(void)
 	int ret = json_object_set_string(node, h);
 	observe("setbig", -1, (const unsigned char *)"", 0, ret);
 }
+/* a NEW node from a C string of 2^31 + 10 bytes (the tail of the oversize source): a length that json_object_get_string_len
+ * (an int) cannot report.  Either no node is made, or one whose reported length is the count of its bytes */
+static void do_newbig(void)
+{
+	const char *h = huge_string();
+	if (!h)
+		return;
+	const size_t L = ((size_t)1 << 31) + 10;
+	json_object *big = json_object_new_string(h + (((size_t)1 << 32) + 5 - L));
+	ev_begin("op");
+	ev_str("op", "newbig");
+	ev_bool("created", big != NULL);
+	ev_bool("len_is_count", big && (long long)json_object_get_string_len(big) == (long long)L);
+	ev_end();
+	if (big)
+		json_object_put(big);
+}
 static void do_delete(void)
 {
 	json_object_put(node);
@@ -331,6 +348,7 @@ static int drive(int start, int nexec, int nops)
 			fill(200, 3);
 			do_set(buf, 200, 0);
 			do_setbig();
+			do_newbig();
 		}
 		int ops = 1 + (int)vh_below((uint32_t)nops);
 		for (int i = 0; i < ops; i++)
